@@ -35,12 +35,59 @@ def strip_list(t):
 FULL_ = ("slice", ("const", None), ("const", None), ("const", None))
 
 
+def parallel_arrays_form(rep, prog, f):
+    """remove_edges written on the two index arrays of the directed edges instead of the list of pairs directed_edges() zips from them:
+    fro, to = np.where(only_directed(B)); chosen = rng.choice(len(fro) | arange(len(fro)), no_edges, replace=False); pruned[fro[chosen], to[chosen]] = 0.
+    -> True when the form was recognised (and judged)"""
+    q = f.qname
+    S = Sym(prog)
+    summ, _ = run_function(S, f)
+    od = [c for c in S.select("call", qname=q) if c.target == U + "only_directed"]
+    if len(od) != 1:
+        return False
+    B = od[0].args[0]
+    W = ("ext", "numpy.where", (od[0].result,), ())
+    fro, to = ("sub", W, ("const", 0)), ("sub", W, ("const", 1))
+    st = S.select("store", qname=q)
+    draws = [c for c in S.select("call", qname=q) if c.callkind == "method" and c.target == ".choice"]
+    if len(st) != 1 or len(draws) != 1 or st[0].idx[0] != "tuple" or len(st[0].idx[1]) != 2:
+        return False
+    ch_ = draws[0].result
+    if st[0].idx != ("tuple", (("sub", fro, ch_), ("sub", to, ch_))):
+        if st[0].idx == ("tuple", (("sub", to, ch_), ("sub", fro, ch_))):
+            rep.ok("BIN.remove", fwhere(f, od[0].node), "existing edges = the positions np.where(only_directed(.)) returns")
+            rep.bad("RESULT.remove", fwhere(f, st[0].node), "the cleared entries are [to, from] of the drawn edges: the transposed positions, where the pattern of a directed edge is 0 anyway")
+            return True
+        return False
+    rep.check("BIN.remove", B in BINS, fwhere(f, od[0].node), "existing edges = positions (fro[k], to[k]) of np.where(only_directed(0/1 pattern of A))",
+              "the existing edges are not taken from the 0/1 pattern of A (only_directed(%s))" % fmt(B)[:60])
+    n_edges = [("ext", "len", (fro,), ()), ("ext", "len", (to,), ()), ("attr", fro, "size"), ("attr", to, "size")]
+    raises = [r for r in S.select("raise", qname=q) if r.exctype == "ValueError"]
+    wants = [frozenset([(">0", pkey(padd(poly(NE), poly(n_), -1)))]) for n_ in n_edges]
+    ok = len(raises) == 1 and resolve(conj(raises[0].path)) in wants
+    rep.check("GUARD.remove", ok, fwhere(f, raises[0].node if raises else None), "ValueError iff no_edges > number of edges (boundary exact)",
+              "guard is %s, expected `len(edges) < no_edges`" % [sorted(pred_fmt(p_) for p_ in resolve(conj(r.path))) for r in raises])
+    b, extra = api.bind_slots(api.GEN_SLOTS["choice"], draws[0].args, draws[0].kwargs)
+    pops = n_edges + [("ext", "numpy.arange", (n_,), ()) for n_ in n_edges] + [("ext", "range", (n_,), ()) for n_ in n_edges]
+    ok = draws[0].recv == RNG and b.get("a") in pops and b.get("size") == NE and b.get("replace") == ("const", False) and not extra and \
+        (not raises or draws[0].order > raises[0].order)
+    rep.check("DRAW.remove", ok, fwhere(f, draws[0].node), "removed edges = no_edges distinct positions of the edge arrays, drawn by default_rng(random_state).choice(., no_edges, replace=False)",
+              "edges to remove are not `no_edges` distinct existing edges from the seeded generator")
+    stored = ("store", st[0].base, st[0].idx, st[0].value, None)
+    ok = is_const(st[0].value, 0) and st[0].aug is None and st[0].base == ("method", B, "copy", (), ()) and T(summ.ret) == stored and tuple(st[0].path) == tuple(draws[0].path)
+    rep.check("RESULT.remove", ok, fwhere(f), "each drawn edge (fro, to) is cleared in a copy of the pattern, which is returned",
+              "result is not `copy of the pattern with exactly the drawn entries set to 0`")
+    return True
+
+
 def remove_rules(rep, prog):
     q = U + "remove_edges"
     f = need(prog, q)
     S = Sym(prog, inline=inline_helpers(prog, "sempler.utils"))
     summ, _ = run_function(S, f)
     calls = [c for c in S.select("call", qname=q) if c.target == U + "directed_edges"]
+    if not calls and parallel_arrays_form(rep, prog, f):
+        return
     if len(calls) != 1 or calls[0].args[0] not in BINS:
         rep.bad("BIN.remove", fwhere(f), "the existing edges are not taken from the 0/1 pattern of A (directed_edges(%s))" % (fmt(calls[0].args[0])[:60] if calls else "-"))
         return
